@@ -673,3 +673,12 @@ TEXT["C11"]["text"] += (" END-TO-END (Props/C11Epoch.lean, Model/RewardEpoch.lea
     "independent of the order of stake entries and backers; consensus premises (produced <= expected, weights within the total) are "
     "named hypotheses, discharged from C11Points where the statistics are a compound point; every real epoch update's complete input "
     "and credits are replayed through the composed model (RE-* lines).")
+TEXT["C15"]["text"] += (" BLOCK FETCHER (Props/C15Fetcher.lean, Model/Fetcher.lean): protocol/fetcher (Notify / Enqueue / Filter, loop, enqueue, "
+    "insert, forgetHash, forgetBlock, the limits and time-outs as generated constants, the shape of every function pinned by AST facts) as a "
+    "transition system over events of any number of peers; for every reachable state: per peer <= blockLimit queued blocks, in total <= "
+    "peers x blockLimit, each accepted within [-maxUncleDist, +maxQueueDist] of the chain height; the queue counters equal the entries; "
+    "dropPeer only for the origin of a block that failed validateBlock; insertChain only for a queued, popped, validated entry with known "
+    "parent at height <= head+1, and nothing of that hash is kept when its goroutine ends. The announce side is FALSE of the code as it is "
+    "(finding FGD1: the counter of pending announcements goes negative, lifting hashLimit): theorems hold for the repaired variant, "
+    "negative witnesses for the code; stream fetcher replays the real fetcher through the model.")
+TEXT["C16"]["text"] += (" At fetcher level (Props/C15Fetcher.lean): never_imports_unqueued, import_in_height_order, failed_import_not_kept.")
